@@ -10,7 +10,7 @@ BOUNDS = {"quick": dict(N=6, N_init=6), "thorough": dict(N=10, N_init=9)}
 
 def oblig(ctx):
     toks, P, mode, with_init = ctx["toks"], ctx["P"], ctx["mode"], ctx["with_init"]
-    mx, ms = P["mx"], P["ms"]
+    mx, ms = P["mx"], P["ms0"]
     bound = ms
     if with_init:
         bound = z3.If(P["im"] > 1, z3.If(P["ims"] > ms, P["ims"], ms), ms)
